@@ -11,7 +11,7 @@ import (
 )
 
 var c17Floor = []string{"after-rejected", "comment", "opts.none", "opts.W", "opts.P", "opts.I", "opts.WP", "opts.WI", "opts.PI", "opts.WPI", "spell.dq", "spell.brackets", "spell.neutral-under-option",
-	"lit.dquote", "lit.squote", "lit.backtick", "lit.backslash", "lit.bracket", "ident.dquote-in-backtick", "ident.bracket", "ident.space", "array.nested", "array.empty", "array.with-bracket-literal", "path.bracket", "where", "shape.derived", "shape.cte", "shape.union"}
+	"lit.dquote", "lit.squote", "lit.backtick", "lit.backslash", "lit.bracket", "ident.dquote-in-backtick", "ident.bracket", "ident.space", "array.nested", "array.empty", "array.with-bracket-literal", "path.bracket", "where", "shape.derived", "shape.cte", "shape.union", "shape.with-shadow", "shape.with-body"}
 
 func init() {
 	fw.Register(&fw.Prop{
@@ -231,11 +231,15 @@ func c17Run(c *fw.Case) {
 	switch {
 	case strings.HasPrefix(force, "shape."):
 		shape = strings.TrimPrefix(force, "shape.")
-	case force == "" && c.Chance(0.3):
-		shape = gen.Pick(c.R, []string{"derived", "cte", "union"})
+	case force == "" && c.Chance(0.4):
+		shape = gen.Pick(c.R, []string{"derived", "cte", "union", "with-shadow", "with-body"})
 	}
 	if shape != "" {
 		feats = append(feats, "shape."+shape)
+	}
+	if shape == "with-shadow" || shape == "with-body" {
+		// a column to join on
+		items = append(items, c17Item{kind: "num", s: "1", alias: "jk"})
 	}
 	render := func(dq, brackets bool) string {
 		q := gen.QBacktick
@@ -273,6 +277,12 @@ func c17Run(c *fw.Case) {
 			sql = "WITH c1 AS (" + sql + ") SELECT * FROM c1"
 		case "union":
 			sql = sql + " UNION ALL " + sql
+		case "with-shadow":
+			// a WITH inside a derived table has a scope of its own: its c1 is not the outer c1
+			sql = "WITH c1 AS (" + sql + ") SELECT * FROM (WITH c1 AS (SELECT 1 AS one FROM dual) SELECT one FROM c1) s JOIN c1 k ON s.one = k.jk"
+		case "with-body":
+			// so has a WITH inside the body of a CTE
+			sql = "WITH a AS (WITH c1 AS (SELECT 1 AS one FROM dual) SELECT one FROM c1), c1 AS (" + sql + ") SELECT * FROM a s JOIN c1 k ON s.one = k.jk"
 		}
 		return sql
 	}
@@ -372,6 +382,10 @@ func c17Run(c *fw.Case) {
 		}
 	case "union":
 		want = append(append([]any{}, want...), want...)
+	case "with-shadow", "with-body":
+		for i := range want {
+			want[i] = map[string]any{"s": map[string]any{"one": 1.0}, "k": want[i]}
+		}
 	}
 	det["expected"] = val.Show(want)
 	if !(len(want) == 0 && len(r0.Rows) == 0) && !sameSelValue(r0.Rows, want) {
